@@ -16,7 +16,8 @@ Transcribed, in the order of the Python code:
   changes the result);
 * `serialise_operator_code`, the `operator_code_map` (later entries overwrite earlier ones with the same key);
 * `serialise_subgraph`: virtual outputs removed, the tensors to write collected in an insertion-ordered `dict`
-  (original inputs first, then the operands of the written operators and of the placeholders in pass order), sorted by
+  (original inputs first, then the operands of the written operators and of the placeholders in pass order, then the subgraph
+  outputs), sorted by
   `(name, position)`, the scratch tensor, tensor indices, buffer indices (`assign_buffers_to_tensors`: buffer 0 for tensors
   in the tensor arena / fast scratch, a fresh buffer for every other tensor, no sharing), `serialise_tensor` (shape rule,
   quantisation fields, buffer content), subgraph inputs / outputs, `serialise_operator`;
@@ -226,9 +227,11 @@ def addOperands (s : List Nat) (op : POp) : List Nat :=
     | some t => addNew s t
     | none => s) s
 
-/-- the keys of `tensor_set` in insertion order -/
-def tensorSet (originalInputs : List Nat) (ops : List POp) : List Nat :=
-  ((ops.filter (!·.ignored)) ++ (ops.filter (·.placeholder))).foldl addOperands (dedup originalInputs)
+/-- the keys of `tensor_set` in insertion order: original inputs, operands of the written operators and of the placeholders, and
+    (since the repair C11-60: a constant only the output list names used to be dropped) the subgraph outputs that are left after
+    the virtual outputs were removed -/
+def tensorSet (originalInputs : List Nat) (ops : List POp) (outs : List Nat) : List Nat :=
+  outs.foldl addNew (((ops.filter (!·.ignored)) ++ (ops.filter (·.placeholder))).foldl addOperands (dedup originalInputs))
 
 def nameOf (ts : List TensorD) (t : Nat) : Bytes :=
   match ts[t]? with
@@ -319,7 +322,7 @@ deriving Repr, Inhabited
 /-- the operators of the subgraph after the virtual outputs are cut off -/
 def sgOps (ps : PSub) : List POp := clearVirtual ps.ops ps.sg.virtualOutputs
 def sgOuts (ps : PSub) : List Nat := removeVirtual ps.sg.outputTensors ps.sg.virtualOutputs
-def sgSet (ps : PSub) : List Nat := tensorSet ps.sg.originalInputs (sgOps ps)
+def sgSet (ps : PSub) : List Nat := tensorSet ps.sg.originalInputs (sgOps ps) (sgOuts ps)
 /-- `all_tensors` -/
 def sgAll (ts : List TensorD) (ps : PSub) : List Nat := allTensors ts (sgSet ps)
 def sgTds (ts : List TensorD) (ps : PSub) : List TensorD := (sgAll ts ps).filterMap (ts[·]?)
